@@ -15,6 +15,7 @@ from __future__ import annotations
 import ast
 
 from .common import *  # noqa: F401,F403
+from . import defuse as DU
 from . import fsmodel as FSM, boundary
 
 OU = "pyxel/outputs/utils.py"
@@ -256,18 +257,27 @@ def complete(u: Unit):
     detail = "no loop over `filenames`"
     if ok:
         body = loops[0].body
-        last = body[-1]
-        ok = isinstance(last, ast.Expr) and ast.unparse(last).startswith("dct[bucket_name].append(")
-        m = [s for s in body if isinstance(s, ast.Match)]
-        branches_ok = len(m) == 1 and all(any(isinstance(x, (ast.Raise,)) or (isinstance(x, ast.Expr) and "write_to_" in ast.unparse(x)) for x in c.body) for c in m[0].cases)
-        ok = ok and branches_ok
-        detail = f"loop body ends with the append: {isinstance(last, ast.Expr)}; every format branch writes or raises: {branches_ok}"
+        is_append = lambda st_: (isinstance(st_, ast.Expr) and isinstance(st_.value, ast.Call) and isinstance(st_.value.func, ast.Attribute) and st_.value.func.attr == "append"
+                                 and isinstance(st_.value.func.value, ast.Subscript))
+        m_idx = [i for i, st_ in enumerate(body) if isinstance(st_, ast.Match)]
+        a_idx = [i for i, st_ in enumerate(body) if is_append(st_)]
+        no_skip = not any(isinstance(n, (ast.Continue, ast.Break)) for n in ast.walk(ast.Module(body=body, type_ignores=[])))
+        branches_ok = len(m_idx) == 1 and all(any(isinstance(x, (ast.Raise,)) or (isinstance(x, ast.Expr) and "write_to_" in ast.unparse(x)) for x in c.body) for c in body[m_idx[0]].cases)
+        ok = len(a_idx) == 1 and branches_ok and no_skip and a_idx[0] > m_idx[0]
+        detail = f"unconditional append after the format dispatch: {len(a_idx) == 1 and bool(m_idx) and a_idx[0] > m_idx[0]}; every format branch writes or raises: {branches_ok}; no continue/break: {no_skip}"
     u.static("complete.one_entry_per_name", ok, fi.qualname, detail)
     fo = u.fn("pyxel/exposure/exposure.py::run_pipeline")
-    src = ast.unparse(fo.node)
-    u.static("complete.exposure_saves_when_requested", "if outputs and outputs.save_data_to_file:" in src and "save_to_files(folder=outputs.current_output_folder, processor=processor, filenames=filenames" in src,
-             fo.qualname, "exposure.run_pipeline saves the requested names of THIS processor into the current output folder")
-    fr_ = u.fn("pyxel/observation/observation_dask.py::run_pipelines_with_dask")
-    s2 = ast.unparse(fr_.node).replace(" ", "")
-    u.static("parallel.index", "np.arange(params_dataarray.size).reshape(params_dataarray.shape)" in s2 or "np.arange(" in s2 and ".reshape(" in s2, fr_.qualname,
-             "per-run output file indices are arange(size).reshape(shape): one distinct suffix per parameter cell")
+    cs = DU.calls(fo.node, "save_to_files")
+    kw = DU.kw_args(fo.node, cs[0]) if len(cs) == 1 else {}
+    guarded = False
+    for node in ast.walk(fo.node):
+        if isinstance(node, ast.If) and cs and any(c is cs[0] for c in ast.walk(ast.Module(body=node.body, type_ignores=[]))):
+            t = DU.norm(fo.node, node.test)
+            if t in ("outputsandoutputs.save_data_to_file", "outputsisnotNoneandoutputs.save_data_to_file", "outputs.save_data_to_file"):
+                guarded = True
+    ok_args = kw.get("folder") == "outputs.current_output_folder" and kw.get("processor") == "processor" and \
+        kw.get("filenames") in ("outputs.build_filenames(filename_suffix=output_filename_suffix)", "outputs.build_filenames(output_filename_suffix)")
+    u.static("complete.exposure_saves_when_requested", len(cs) == 1 and guarded and ok_args, fo.qualname,
+             f"exposure.run_pipeline saves the requested names of THIS processor into the current output folder: guarded={guarded} args={kw}")
+    from . import C07
+    C07.fileindex(u)
